@@ -837,6 +837,23 @@ class Unit:
                     out.append('//@ item %s :: const %s\n//@ end' % (mm.group(1), it.name))
             return '\n'.join(out)
         text = re.sub(r'^//@@ consts (\S+)[ \t]*$', consts, text, flags=re.M)
+        # `//@@ closed-impl <file> :: <impl selector> :: fn1 fn2`: the trait impl defines exactly these fns.  The contracts
+        # ASSUME the trait's default for every other method (e.g. asynchronous-codec's `decode_eof`, which reports leftover
+        # octets at end of input as an error); an override would be code the property depends on that no contract reads,
+        # so the check is undecided - never "verified", never a violation
+        for mm in re.finditer(r'^//@@ closed-impl (\S+) :: (.+?) :: ([\w ]+?)[ \t]*$', text, re.M):
+            path = os.path.join(self.repo, mm.group(1))
+            if not os.path.exists(path):
+                raise Undecided('lost anchor: file %s' % mm.group(1))
+            try:
+                imp = rustscan.find_item(rustscan.scan_items(open(path).read()), mm.group(2))
+            except KeyError as e:
+                raise Undecided('lost anchor: %s' % e)
+            have = sorted(c.name for c in imp.children if c.kind == 'fn')
+            want = sorted(mm.group(3).split())
+            if have != want:
+                raise Undecided('unsupported shape: `%s` in %s defines fn %s, the contracts were written for %s (the trait default of every other method is an assumption)'
+                                % (mm.group(2), mm.group(1), ', '.join(have), ', '.join(want)))
         self.template_text = text
         self.defines = set(re.findall(r'^//@@ define (\w+)[ \t]*$', text, re.M))
         m = re.search(r'^//@@ state-fields:(.*)$', text, re.M)
@@ -864,12 +881,9 @@ class Unit:
                 cache[path] = (s, rustscan.scan_items(s))
             src, items = cache[path]
             try:
-                it = rustscan.find_item(items, selector)
+                it, parent = rustscan.find_item(items, selector, with_parent=True)
             except KeyError as e:
                 raise Undecided('lost anchor: %s' % e)
-            parent = None
-            if ' / ' in selector:
-                parent = rustscan.find_item(items, selector.rsplit(' / ', 1)[0])
             self.emit_item(src, file, selector, it, parent, dirs)
         return self
 
